@@ -12,16 +12,16 @@ CHECKS = {
 }
 CHECKS.update({
  "C03": ("exploration", "bounded-exhaustive enumeration of every below-threshold signer subset on the real code + exhaustive tiny-field secrecy count",
-         "Every subset of size 1..t-1 of every (n,t) up to the bound, with honest and lied thresholds in key packages and public key package, through sign / aggregate (3 modes) / reconstruct / hand-assembled signatures; exact Shamir secrecy (every secret equally often for every (t-1)-subset of shares) over ALL polynomials on GF(5), GF(7), GF(11).",
+         "Every subset of size 1..t-1 of every (n,t) up to the bound, with honest and lied thresholds in key packages and public key package, through sign / aggregate (3 modes) / reconstruct / hand-assembled signatures, the same drive through the re-randomized entry points (sign_with_randomizer_seed, deprecated sign, aggregate, aggregate_custom) and on key material after dealer refresh / distributed refresh / repair among exactly t and t+1 holders; exact Shamir secrecy (every secret equally often for every (t-1)-subset of shares) over ALL polynomials on GF(5), GF(7), GF(11).",
          "Unforgeability against arbitrary algorithms is a cryptographic assumption and is not decided; what is decided is the refusals, the honest-algorithm attack surface and exact secrecy on the tiny field.", "DESIGN 4 C03"),
  "C04": ("fault_enumeration", "exhaustive fault enumeration (every cheater subset x wrong-share kind x detection mode) with an exact reference predicate; every error vector on the tiny field",
          "Every non-empty cheater subset of every signer set, seven wrong-share kinds incl. cross-session and cancelling ones, three detection modes plus stand-alone share verification, Taproot in all four (key parity, R parity) branches; oracle is exact (e_i computed by the harness, numeric identifier order computed independently). On GF(7)/GF(11)/GF(13) EVERY error vector is run.",
          "Wrong-share values on the real curves are structured kinds, not all values; all values only on the tiny field.", "DESIGN 4 C04"),
  "C06": ("exploration", "bounded-exhaustive shape enumeration + exhaustive single-coordinate tamper enumeration; exhaustive tiny-field polynomials",
-         "Every (n,t) up to the bound x 5 identifier kinds x generate/split: every share checked by independent commitment evaluation and Lagrange interpolation, EVERY t-subset reconstructs, every (t-1)-subset does not, EVERY single-coordinate tampering (value, identifier, each commitment entry, truncation, extension) of every share is rejected; u16 boundary and duplicate/mis-sized identifier lists refused; all polynomials on GF(5)/GF(7)/GF(11).",
+         "Every (n,t) up to the bound x 5 identifier kinds x generate/split: every share checked by independent commitment evaluation and Lagrange interpolation, EVERY t-subset reconstructs, every (t-1)-subset does not, EVERY single-coordinate tampering (value, identifier, each commitment entry, truncation, extension) of every share is rejected; u16 boundary and duplicate/mis-sized identifier lists refused; custom identifier lists whose members differ in ONE bit, for every bit position; n=65535 with default identifiers; all polynomials on GF(5)/GF(7)/GF(11).",
          "Coefficient values on the real curves are seeded streams; all values only on the tiny field.", "DESIGN 4 C06"),
  "C11": ("exploration", "bounded-exhaustive enumeration of (repaired identifier, helper set) on the real code; every blinding vector on the tiny field",
-         "Every repaired identifier (each existing participant and three new ones) x every helper set t<=|H| of every (n,t) up to the bound through the three repair parts of each crate's wrappers; delta sums and the repaired share compared with independent Lagrange interpolation; the refusals; every blinding vector on GF(7)/GF(11).",
+         "Every repaired identifier (each existing participant and three new ones) x every helper set t<=|H| of every (n,t) up to the bound through the three repair parts of each crate's wrappers; delta sums and the repaired share compared with independent Lagrange interpolation; the public key package reaches part 3 through its binary and JSON encodings; hundreds of helpers incl. a (260,256) group; the refusals; every blinding vector on GF(7)/GF(11).",
          "Blinding values on the real curves are seeded streams.", "DESIGN 4 C11"),
 })
 CHECKS.update({
@@ -63,7 +63,7 @@ CHECKS.update({
          "Suites x share alphabet x 10 random sources (counter streams, constant, repeating 32- and 5-byte blocks, zero-then-good, A,A,B and A,B,A patterns) x call sequences (commit, repeated commit, preprocess(k) for k in {0,1,2,5,255}, mixed): the byte stream handed out must be 64 bytes per pair and hiding_j / binding_j must equal an independently written H3 of the j-th / next 32 bytes followed by the share encoding; commitments = G*nonce; k pairs; (bytes, share) -> nonce is injective over the case; no zero nonce / identity commitment.",
          "The independent H3 uses the curve crates' scalar reduction and sha2/shake, none of frost-*.", "DESIGN 4 C15"),
  "C16": ("exploration", "environment-answer exploration: every RNG-taking entry point under stream pairs and EVERY single-draw deviation",
-         "10 entry points x suites x (n,t): same stream => identical output; other stream => every listed secret-derived value changes; values within a call pairwise distinct; >= 16 bytes per secret; every single-draw deviation (each draw j answered from another stream, all others unchanged) changes the output; zero answers to key / proof-nonce draws are rejected and re-drawn; batch verification draws one fresh blinder per item.",
+         "10 entry points x suites x (n,t): same stream => identical output; other stream => every listed secret-derived value changes; values within a call pairwise distinct; >= 16 bytes per secret; every single-draw deviation (each draw j answered from another stream, all others unchanged) changes the output; zero answers to key / proof-nonce draws are rejected and re-drawn; batch verification draws one fresh blinder per item (also for adjacent items under one key and a repeated item); source answers outside the scalar range (all ones, order+1) never become a zero scalar and leave every entry point usable with pairwise distinct values; outputs equal those of a separate process.",
          "'Nowhere else' is decided as determinism under a scripted source within one process; blinder values are decided exactly only on the tiny field (C19).", "DESIGN 4 C16"),
 })
 CHECKS.update({
@@ -76,10 +76,10 @@ CHECKS.update({
 })
 CHECKS.update({
  "C19": ("exploration", "bounded-exhaustive enumeration of batch size x invalid position x kind and of every cancelling pair on the real code; EVERY blinder vector on the tiny field (exact acceptance count)",
-         "Sizes 0..N x 3 key layouts (distinct, round-robin, adjacent same key): valid batch, one invalid item at every position x 6 kinds, every pair of positions with complementary / swapped errors; accept <=> every item verifies (library + independent verifier), verify_single <=> verify. On GF(7)/GF(11)/GF(13) every blinder vector is fed through the scripted source: valid batches accepted by all, invalid ones (every error pattern over {0,1,-1,2}^k) by at most q^(k-1).",
+         "Sizes 0..N x 3 key layouts (distinct, round-robin, adjacent same key): valid batch, one invalid item at every position x 6 kinds, every pair of positions with complementary / swapped errors; accept <=> every item verifies (library + independent verifier), verify_single <=> verify (Taproot: also signatures held in memory with odd-Y R); boundary blinder values and out-of-range source answers injected through the scripted source do not change the verdict. On GF(7)/GF(11)/GF(13) every blinder vector is fed through the scripted source: valid batches accepted by all, invalid ones (every error pattern over {0,1,-1,2}^k) by at most q^(k-1).",
          "The 2^-128 bound on real curves is inferred (generic code + fresh full-width draw per item, C16); exact only on the tiny field.", "DESIGN 4 C19"),
  "C20": ("exploration", "enumeration of secret-bearing types x shapes x operations with an allocator wrapper reading the freed storage, ManuallyDrop controls",
-         "10 secret-bearing types (incl. the refresh form of the round-one secret package and t = n shapes) x suites x seeds: on drop no freed block contains the in-memory image of any secret scalar (control without destructor must show it, and the box must have been observed); zeroize() leaves every secret getter zero and nothing secret re-encodable; Debug / alternate Debug contain no rendering of any secret scalar.",
+         "10 secret-bearing types (incl. the refresh form of the round-one secret package, t = n shapes, packages built with thresholds 0 / 1 / 65535 or commitments shorter than the coefficients, and packages decoded from bytes / JSON) x suites x seeds: on drop no freed block contains the in-memory image of any secret scalar (control without destructor must show it, and the box must have been observed); zeroize() leaves every secret getter zero and nothing secret re-encodable; Debug / alternate Debug contain no rendering of any secret scalar.",
          "Stack / register copies and library-internal temporaries are not 'the storage it occupied' and are only recorded.", "DESIGN 4 C20"),
 })
 CHECKS.update({
